@@ -129,12 +129,18 @@ func execGreedy(g *graph.DGraph, params graph.Params) {
 	}
 
 	// reverse edges that point right
+	// collect them first: reversing an edge removes it from the adjacency list being ranged over,
+	// which would make the loop skip the edge that follows it
+	var rev []*graph.Edge
 	for _, n := range g.Nodes {
 		for _, e := range n.Out {
 			if p.arcdiag[n] > p.arcdiag[e.To] {
-				e.Reverse()
+				rev = append(rev, e)
 			}
 		}
+	}
+	for _, e := range rev {
+		e.Reverse()
 	}
 }
 
